@@ -1453,9 +1453,9 @@ fn gen_c07(rng: &mut Rng, r: u64, tier: &str) -> Value {
     }
     observe.push(json!({"k":"api","op":"list","bin":"sync","mode":"sync"}));
     let policy = if tier == "quick" { *rng.pick(&["random", "random", "pct"]) } else { *rng.pick(&["random", "pct", "pct"]) };
-    if nclients == 2 && r % (if tier == "quick" { 250 } else { 40 }) == 7 {
+    if nclients == 2 && r % (if tier == "quick" { 250 } else { 300 }) == 7 {
         return json!({"keys":keys,"vals":vals,"prelude":prelude,"clients":clients,"post":[],"final_observe":observe,"check_partial_records":true,
-               "plan":{"kind":"enumerate_switches","cap": if tier == "quick" { 24 } else { 60 }},"oracle":"serial"});
+               "plan":{"kind":"enumerate_switches","cap": if tier == "quick" { 24 } else { 40 }},"oracle":"serial"});
     }
     json!({"keys":keys,"vals":vals,"prelude":prelude,"clients":clients,"post":[],"final_observe":observe,"check_partial_records":true,
            "plan":{"kind":"single","faults":[],"schedule":{"policy":policy,"seed":rng.next_u64() >> 1,"depth":rng.range(1,3),"horizon":rng.range(10,60)}},"oracle":"serial"})
